@@ -172,12 +172,13 @@ theorem decodeAmmo_ring {ρ} (reqs : List Char → Option ρ) (scs : List Scenar
   simp only [Bool.false_eq_true, if_false] at h
   match scs, hnd, hw, h with
   | [], _, _, h =>
-    simp [spreadNames, decodeLoop] at h
+    simp [spreadNames, decodeLoop, spreadRefused, maxSpreadSize] at h
     cases h
     simp
   | [s], _, _, h =>
     simp only [spreadNames] at h
-    have h' : decodeLoop reqs [(s.name, 1)] [s] [] = .ok ring := by simpa using h
+    have h' : decodeLoop reqs [(s.name, 1)] [s] [] = .ok ring := by
+      simpa [spreadRefused, maxSpreadSize] using h
     obtain ⟨hall, hring⟩ := decodeLoop_ok reqs _ _ _ _ h'
     refine ⟨hall, ?_⟩
     rw [hring]
@@ -188,6 +189,8 @@ theorem decodeAmmo_ring {ρ} (reqs : List Char → Option ρ) (scs : List Scenar
     simp only at hsp
     rw [hsp] at h
     simp only at h
+    split at h
+    · cases h
     split at h
     · cases h
     · obtain ⟨hall, hring⟩ := decodeLoop_ok reqs _ _ _ _ h
